@@ -150,9 +150,9 @@ func c10probeUnit(name, src string, data prog.Value, hasData bool) *c10unit {
 
 func c10n(tier string) int {
 	if tier == "thorough" {
-		return 12000
+		return 60000
 	}
-	return 320
+	return 1500
 }
 
 func c10run(c *fw.Ctx, idx int) {
